@@ -7,7 +7,7 @@ namespace QP.PT
 
 /-- the constructor subset of stage 3 -/
 inductive Stage3 : PT → Prop
-  | atom {pt} : AtomTree pt → Stage3 pt
+  | atom {pt} : AtomTreeP pt → Stage3 pt
   | seq {id subs meas cons} : (∀ p ∈ subs, Stage3 p) → Stage3 (.seq id subs meas cons)
   | rep {id body count meas cons} : Stage3 body → Stage3 (.rep id body count meas cons)
   | forLoop {id body idx start stop step meas cons} : Stage3 body →
@@ -19,13 +19,16 @@ inductive Stage3 : PT → Prop
 theorem Stage3.basicT {pt : PT} (h : Stage3 pt) : BasicT pt := by
   induction h with
   | atom ha =>
-    have hb := atomOKT_of_buildOK ha.buildOK
+    have hb := atomOKT_of_buildOKP ha.buildOKP
     cases ha with
-    | const => exact BasicT.const hb
-    | func => exact BasicT.func hb
-    | table => exact BasicT.table hb
-    | point => exact BasicT.point hb
-    | atomicMulti _ => exact BasicT.atomicMulti hb
+    | base ha' =>
+      cases ha' with
+      | const => exact BasicT.const hb
+      | func => exact BasicT.func hb
+      | table => exact BasicT.table hb
+      | point => exact BasicT.point hb
+      | atomicMulti _ => exact BasicT.atomicMulti hb
+    | arithAtomic _ _ => exact BasicT.arithAtomic hb
   | seq _ ih => exact BasicT.seq ih
   | rep _ ih => exact BasicT.rep ih
   | forLoop _ ih => exact BasicT.forLoop ih
